@@ -176,6 +176,12 @@ impl Check for C07Check {
     fn level(&self) -> &'static str {
         "exploration"
     }
+    fn address_space_limit_mib(&self) -> Option<u64> {
+        // decoders of <= 64 KiB datagrams: an allocation that does not fit in 4 GiB of address
+        // space derives from a wire-controlled field; it must fail here as it would on a
+        // machine without over-commit, not pass silently
+        Some(4096)
+    }
     fn rule(&self) -> String {
         "stream scenarios: a byte stream from the Chronobox FIFO model (timestamps on channels 0..58 both edges, half-wrap markers, 244-byte scaler blocks whose payload words imitate entries and tags, optional invalid word / partial element / garbage tail, optional 1-2 bit flips anywhere) delivered under a history of cuts: every single cut position, every pair of cuts (streams <= 300 B), one byte at a time, and seeded multi-cut patterns biased to land inside entries, inside the scaler tag, inside the scaler payload and at +-1 byte of element boundaries, including zero-length pieces. The consumer follows the resume protocol around the real chronobox_fifo. Oracles: I1 whole-stream parse == reference word-at-a-time parser (entries with channel/edge/24-bit timestamp bit0 cleared/23-bit counter/top bit; consumed = longest valid prefix; remainder = untouched tail); I2 piecewise == whole (entries, order, final remainder); I3 progress (each call consumes a multiple of 4 bytes, >= 4 per entry). sweep scenarios: single-word classification of 4-byte words against the reference, alone and embedded between valid entries (so that a word wrongly taken as a block header is seen swallowing its successors). Non-trivial = at least one piecewise history with >= 2 pieces or >= 2 words classified; distinct = distinct event-log hashes (stream bytes + cut history + entries).".into()
     }
